@@ -60,6 +60,7 @@ def main():
         elif a[i] == "--lanes": lanes = a[i+1].split(","); i += 2
         elif a[i] == "--flavor": flavor = a[i+1]; i += 2
         elif a[i] == "--only": extra += ["--only", a[i+1]]; i += 2
+        elif a[i] == "--set": extra += ["--set", a[i+1]]; i += 2
         else: names.append(a[i]); i += 1
     todo = [(n, m) for n, m in MUTANTS.items() if (prop in m["props"]) and (not names or n in names)]
     if "none" in names: todo = [("none", {"props": [prop], "edits": []})] + todo
